@@ -344,10 +344,12 @@ def c06(r):
     inactive_since = {}
     frozen = {}
     cur_run = None
+    fresh = []        # demes created in the previous metaepoch: they first run in this one
     for i, e in enumerate(ev):
         k = e["e"]
         if k == "step":
             start = {d["id"]: d for d in e["snap"]["demes"]}
+            fresh = list(created)
             ran, created = [], []
             lsc_true, gsc_in, selfstop = set(), set(), set()
         elif k == "run" and e["ph"] == "b":
@@ -379,8 +381,19 @@ def c06(r):
                     out.append(V("C06/reactivated", f"deme {did} was reactivated in metaepoch {e['m']}", event=i))
                 if d0["active"] and not d1["active"] and not (did in lsc_true or did in gsc_in or did in selfstop):
                     out.append(V("C06/stop-cause", f"deme {did} became inactive in metaepoch {e['m']} without LSC, GSC or engine termination", event=i))
+                # "a deme becomes inactive exactly when its local stop condition holds at the end of its metaepoch": for the metaepoch-limit
+                # condition the verdict is recomputed here from the deme's own history, independently of what the condition was shown
+                lsc_spec = r["spec"]["levels"][d1["lvl"]]["lsc"] if d1["lvl"] < len(r["spec"]["levels"]) else {}
+                if should and d1["active"] and lsc_spec.get("kind") == "MetaepochLimit" and did not in gsc_in and len(d1["gens"]) - 1 >= lsc_spec["n"] \
+                        and d1["cls"] not in ("LocalDeme",):
+                    out.append(V("C06/lsc-holds-but-active", f"deme {did} has run {len(d1['gens']) - 1} metaepochs, its local stop condition MetaepochLimit({lsc_spec['n']}) "
+                                                             f"holds at the end of metaepoch {e['m']}, but it is still active", event=i))
                 if d0["active"] and d1["active"] and should and (did in lsc_true or did in gsc_in or (did in selfstop)):
                     out.append(V("C06/ignored-stop", f"deme {did} stayed active in metaepoch {e['m']} although its stop condition held (lsc={did in lsc_true}, gsc={did in gsc_in}, engine={did in selfstop})", event=i))
+            for did in fresh:
+                if did in start and start[did]["active"] and did not in ran:
+                    out.append(V("C06/fresh-first-run", f"deme {did}, created in the previous metaepoch and still active, did not run in metaepoch {e['m']} "
+                                                        f"(hibernating={start[did]['hib']})", event=i))
             for did in created:
                 if did in ran:
                     out.append(V("C06/fresh-ran", f"deme {did} ran in the metaepoch that created it", event=i))
